@@ -89,6 +89,27 @@ func overlayFor(repo, verif string, dirs []string, genDir string) (map[string]st
 			}
 		}
 	}
+	// session.go: the two session mutexes become harness types whose Lock/Unlock are scheduling points of the
+	// logical-thread scheduler (symbolically and in native replay); generated from the CURRENT file
+	for _, d := range dirs {
+		if d != "root" {
+			continue
+		}
+		src, err := os.ReadFile(filepath.Join(repo, "session.go"))
+		if err != nil {
+			continue
+		}
+		txt := string(src)
+		if strings.Count(txt, "sendMutex sync.Mutex") == 1 && strings.Count(txt, "resendMutex sync.RWMutex") == 1 {
+			txt = strings.Replace(txt, "sendMutex sync.Mutex", "sendMutex verifMutex", 1)
+			txt = strings.Replace(txt, "resendMutex sync.RWMutex", "resendMutex verifRWMutex", 1)
+			os.MkdirAll(filepath.Join(genDir, "root_mutex"), 0o755)
+			gen := filepath.Join(genDir, "root_mutex", "session.go")
+			if err := os.WriteFile(gen, []byte(txt), 0o644); err == nil {
+				ov[filepath.Join(repo, "session.go")] = gen
+			}
+		}
+	}
 	// store/file runs over the in-memory file system of harness/file/vfs.go: overlay copies of the CURRENT
 	// file_store.go / util.go with the package-os identifiers renamed (never committed)
 	for _, d := range dirs {
